@@ -1288,9 +1288,9 @@ int safec_vsnprintf_s(out_fct_type out, const char *funcname, char *buffer,
                     char msg[80];
                     snprintf(msg, sizeof msg, "%s: wctomb for %%lc arg failed",
                              funcname);
-                    invoke_safe_str_constraint_handler(msg, buffer,
-                                                       RCNEGATE(-len));
-                    return len;
+                    invoke_safe_str_constraint_handler(msg, buffer, EILSEQ);
+                    errno = 0; /* reported: the stream wrappers must not report again */
+                    return -(EILSEQ);
                 }
                 wstr[len] = '\0';
                 l = (unsigned int)len; /* the field width counts bytes */
@@ -1366,6 +1366,7 @@ int safec_vsnprintf_s(out_fct_type out, const char *funcname, char *buffer,
                     snprintf(msg, sizeof msg,
                              "%s: wcstombs for %%ls arg failed", funcname);
                     invoke_safe_str_constraint_handler(msg, buffer, EILSEQ);
+                    errno = 0; /* reported: the stream wrappers must not report again */
                     return -(EILSEQ);
                 }
                 p[len] = '\0';
